@@ -4,6 +4,7 @@ import (
 	"fmt"
 	"sort"
 	"strings"
+	"sync/atomic"
 	"time"
 
 	"github.com/anishathalye/porcupine"
@@ -136,7 +137,9 @@ var busModel = porcupine.Model{
 				return o.Err, s
 			}
 			if o.Err {
-				return false, s
+				// once the bus is closing its subscribers shut down one by one (before Close returns):
+				// a clone may already be refused; on an open bus a live subscriber must be clonable
+				return !s.busOpen, s
 			}
 			s.queues[o.New] = append([]int{}, q...)
 			s.parent[o.New] = i.Sub
@@ -154,8 +157,9 @@ var busModel = porcupine.Model{
 			}
 			return true, s
 		case "closebus":
+			// no more publishes or subscriptions; the subscribers wind down individually until Close
+			// returns (what they had buffered may still be read, clones of them may still succeed)
 			s.busOpen = false
-			s.queues = map[int][]int{}
 			return true, s
 		}
 		return false, s
@@ -170,6 +174,7 @@ var busModel = porcupine.Model{
 func runC15L2(r *core.Run) (*core.Violation, func() *core.Violation) {
 	x := &c15l2{r: r, subs: map[int]pubsub.Subscriber{}}
 	s := NewSched(r)
+	atomic.StoreInt64(&eventSeq, 0)
 	simrt.Enable(r)
 	released := false
 	release := func() {
@@ -341,7 +346,11 @@ func runC15L2(r *core.Run) (*core.Violation, func() *core.Violation) {
 	for _, d := range desc {
 		r.Logf("  %s", d)
 	}
-	r.Abstract(fmt.Sprintf("l2|%d ops|%d tasks", len(ops), x.tasks))
+	for _, h := range x.hist {
+		if h.returned {
+			r.Abstract(fmt.Sprintf("c%d %s", h.client, busModel.DescribeOperation(h.in, h.out)))
+		}
+	}
 	r.Count("probe:l2-histories")
 	if withCloner {
 		r.Count("probe:l2-history-with-clone")
